@@ -1,4 +1,5 @@
 import Adb.Spec.Verdict
+import Adb.Lemmas.Bits
 /-
   C05 — Rule optimisation never changes any verdict.
 
@@ -21,34 +22,6 @@ private theorem items_ne_nil {r : Rule} (hw : WFPart r) (he : r.filter ≠ .empt
   | anyOf ss =>
     simp only [FilterPart.items]
     intro h; subst h; exact hw hf
-
-theorem testBit_setBit (m bit i : Nat) (v : Bool) :
-    (setBit m bit v).testBit i = if i = bit then v else m.testBit i := by
-  unfold setBit
-  split
-  · rename_i h
-    split
-    · rename_i hi; subst hi; simpa using h
-    · rfl
-  · rename_i h
-    simp only [Nat.testBit_xor, Nat.testBit_shiftLeft]
-    split
-    · rename_i hi; subst hi
-      simp only [Nat.le_refl, decide_true, Nat.sub_self, Nat.testBit_zero, Nat.one_mod, decide_true,
-        Bool.and_self, Bool.xor_true]
-      cases hm : m.testBit i <;> cases v <;> simp_all
-    · rename_i hi
-      have : (decide (bit ≤ i) && (1 : Nat).testBit (i - bit)) = false := by
-        by_cases hle : bit ≤ i
-        · have hpos : i - bit ≠ 0 := by omega
-          cases hk : i - bit with
-          | zero => exact absurd hk hpos
-          | succ k => simp [Nat.testBit_succ]
-        · simp [hle]
-      simp [this]
-
-theorem setBit_same (m bit : Nat) : setBit m bit (m.testBit bit) = m := by
-  unfold setBit; simp
 
 /-- what a (non hostname-anchored) rule's pattern test looks like in terms of its pattern items -/
 def itemTest (mask : Mask) (q : Request) (f : Str) : Bool :=
